@@ -114,6 +114,18 @@ where
         ..
     } = opened_values_targets;
 
+    // Mirror the native `validate_degree_bits`: the trace domain must exist for this PCS and,
+    // under ZK, be large enough to be halved. `degree_bits` is prover-supplied and is used as a
+    // shift amount and to build two-adic domains below, both of which panic when out of range.
+    let pcs = config.pcs();
+    let log_max_degree = pcs.log_max_lde_height();
+    if *degree_bits < config.is_zk() || *degree_bits > log_max_degree {
+        return Err(VerificationError::InvalidProofShape(format!(
+            "degree_bits {degree_bits} out of range: expected a value between {} and {log_max_degree}",
+            config.is_zk()
+        )));
+    }
+
     let degree = 1 << degree_bits;
     let lookup_gadget = LogUpGadget {};
     let preprocessed_width = opt_opened_preprocessed_local_targets
@@ -140,8 +152,13 @@ where
         &lookup_gadget,
     );
     let quotient_degree = 1 << (log_quotient_degree + config.is_zk());
+    if degree_bits + log_quotient_degree > log_max_degree {
+        return Err(VerificationError::InvalidProofShape(format!(
+            "quotient domain too large: degree_bits {degree_bits} + log_quotient_degree \
+             {log_quotient_degree} exceeds {log_max_degree}"
+        )));
+    }
 
-    let pcs = config.pcs();
     let trace_domain = pcs.natural_domain_for_degree(degree);
     let init_trace_domain = pcs.natural_domain_for_degree(degree >> (config.is_zk()));
 
